@@ -137,7 +137,11 @@ def execute(sc, sim):
                                  expected_vs_got=d))
             break
         # (ii) flow conservation for every symbol
-        badflow = refgram.flow_violations(bg, refl, roots)
+        if bl != refl:
+            viols.append(cm.viol("C08/lexicon-counts-changed/%s" % ms, mode=sc["mode"],
+                                 order=order))
+            break
+        badflow = refgram.flow_violations(bg, bl, roots)
         if badflow:
             viols.append(cm.viol("C08/flow-conservation/%s" % ms, mode=sc["mode"], order=order,
                                  symbols=[list(x) for x in badflow[:4]]))
